@@ -5,8 +5,9 @@ NQ(q) == [k |-> "num", q |-> q]
 TX(c) == [k |-> "text", c |-> c]
 BlankC == [k |-> "blank"]
 \* 0, 3, 5, 7, -1, 2.5 ; "x" "X" "apple" "apply" "b?" ; blank
+\* ... and "app<line break>le": a wildcard covers a line break like any other character
 Cells == {NQ(0), NQ(12), NQ(20), NQ(28), NQ(-4), NQ(10), TX(<<120>>), TX(<<88>>), TX(<<97, 112, 112, 108, 101>>), TX(<<97, 112, 112, 108, 121>>),
-          TX(<<98, 63>>), BlankC}
+          TX(<<98, 63>>), TX(<<97, 112, 112, 10, 108, 101>>), BlankC}
 BoolC(b) == [k |-> "bool", b |-> b]
 \* the truth-value enumeration: 1, 0, TRUE, FALSE, blank x criteria TRUE / FALSE (as texts, = and <>) and numbers 1 / 0
 BoolCells == {NQ(4), NQ(0), BoolC(TRUE), BoolC(FALSE), BlankC}
